@@ -13,8 +13,21 @@ enum Sink {
     Extend { got: VecDeque<Heavy> },
 }
 
+/// The source: an iterator that is NOT fused - it polls a queue, reports the end when the queue is empty and yields
+/// again once the queue has been refilled (Feed!Refill), like a channel's `try_iter` or `iter::from_fn` over shared state.
+type Queue = std::rc::Rc<std::cell::RefCell<VecDeque<Heavy>>>;
+struct QSrc(Queue);
+impl Iterator for QSrc {
+    type Item = Heavy;
+    fn next(&mut self) -> Option<Heavy> {
+        self.0.borrow_mut().pop_front()
+    }
+}
+
 struct World {
-    src: Option<Box<std::vec::IntoIter<Heavy>>>,
+    src: Option<Box<QSrc>>,
+    /// the producer's end of the queue (items still in it die with the last handle)
+    q: Option<Queue>,
     wrapper: Option<CIterator<'static, Heavy>>,
     sink: Sink,
     /// number of items delivered to the sink in total (for Vec/Extend = len)
@@ -33,7 +46,7 @@ fn ids<'a>(it: impl Iterator<Item = &'a Heavy>) -> Vec<usize> {
 impl World {
     fn new() -> Self {
         payload::reset_ids();
-        World { src: None, wrapper: None, sink: Sink::None, last: json!({"kind":"init","n":0}), base: ledger::snap() }
+        World { src: None, q: None, wrapper: None, sink: Sink::None, last: json!({"kind":"init","n":0}), base: ledger::snap() }
     }
 
     fn feed<I: Iterator<Item = Heavy>>(sink: &mut Sink, items: I, via: &str) -> Option<usize> {
@@ -88,13 +101,27 @@ impl World {
             "NewSrc" => {
                 let n = e["n"].as_u64().unwrap() as usize;
                 let id0 = payload::next_id();
-                let old = self.src.take();
+                let old = (self.src.take(), self.q.take());
                 ledger::track(|| drop(old));
-                let it = ledger::track(|| {
-                    let v: Vec<Heavy> = (0..n).map(|i| Heavy::new(id0 + i, (id0 + i) as i64)).collect();
-                    Box::new(v.into_iter())
+                let (it, q) = ledger::track(|| {
+                    let v: VecDeque<Heavy> = (0..n).map(|i| Heavy::new(id0 + i, (id0 + i) as i64)).collect();
+                    let q: Queue = std::rc::Rc::new(std::cell::RefCell::new(v));
+                    (Box::new(QSrc(q.clone())), q)
                 });
                 self.src = Some(it);
+                self.q = Some(q);
+                self.last = ok;
+            }
+            "Refill" => {
+                // the producer pushes more items; an iterator (wrapped or not) that has already reported the end yields again
+                let n = e["n"].as_u64().unwrap() as usize;
+                let id0 = payload::next_id();
+                let q = self.q.as_ref().unwrap().clone();
+                ledger::track(|| {
+                    for i in 0..n {
+                        q.borrow_mut().push_back(Heavy::new(id0 + i, (id0 + i) as i64));
+                    }
+                });
                 self.last = ok;
             }
             "NewSink" => {
@@ -112,7 +139,12 @@ impl World {
                 let via = e["via"].as_str().unwrap();
                 let it = *self.src.take().unwrap();
                 let sink = &mut self.sink;
-                let r = ledger::track(|| World::feed(sink, it, via));
+                let q = self.q.take();
+                let r = ledger::track(|| {
+                    let r = World::feed(sink, it, via);
+                    drop(q); // the consumed source was the last user of the queue
+                    r
+                });
                 self.last = match r {
                     Some(n) => json!({"kind":"count","n":n}),
                     None => ok,
@@ -121,7 +153,7 @@ impl World {
             "FeedRef" => {
                 // the source is lent, not given: what was not offered must still be in it afterwards
                 let via = if e["via"] == "extend_ref" { "extend" } else { "feed_into" };
-                let it: &mut std::vec::IntoIter<Heavy> = &mut **self.src.as_mut().unwrap();
+                let it: &mut QSrc = &mut **self.src.as_mut().unwrap();
                 let sink = &mut self.sink;
                 let r = ledger::track(|| World::feed(sink, it, via));
                 self.last = match r {
@@ -130,9 +162,9 @@ impl World {
                 };
             }
             "Wrap" => {
-                let p: *mut std::vec::IntoIter<Heavy> = &mut **self.src.as_mut().unwrap();
-                // the borrow is kept alive by discipline: the source is not touched while wrapped
-                let it: &'static mut std::vec::IntoIter<Heavy> = unsafe { &mut *p };
+                let p: *mut QSrc = &mut **self.src.as_mut().unwrap();
+                // the borrow is kept alive by discipline: the source is not touched while wrapped (the queue behind it may be)
+                let it: &'static mut QSrc = unsafe { &mut *p };
                 self.wrapper = Some(match payload::next_id() % 3 {
                     0 => CIterator::new(it),
                     1 => it.into(),
@@ -177,7 +209,7 @@ impl World {
     }
 
     fn proj(&self) -> Value {
-        let src = self.src.as_ref().map(|s| ids(s.as_slice().iter())).unwrap_or_default();
+        let src = self.src.as_ref().map(|s| ids(s.0.borrow().iter())).unwrap_or_default();
         let (got, calls) = match &self.sink {
             Sink::None => (vec![], 0),
             Sink::Closure { got, calls, .. } => (ids(got.iter()), *calls),
@@ -191,9 +223,10 @@ impl World {
 
     fn teardown(mut self) -> Option<String> {
         self.wrapper = None;
-        let (s, k) = (self.src.take(), std::mem::replace(&mut self.sink, Sink::None));
+        let (s, q, k) = (self.src.take(), self.q.take(), std::mem::replace(&mut self.sink, Sink::None));
         ledger::track(|| {
             drop(s);
+            drop(q);
             drop(k)
         });
         for (id, d) in payload::drop_table() {
@@ -270,9 +303,13 @@ fn trace(out: &str, seed: u64, events: usize) {
                 1 => json!({"op":"NewSink","kind":"vec","stop":0}),
                 _ => json!({"op":"NewSink","kind":"extend","stop":0}),
             });
+            if w.src.is_some() {
+                cand.push(json!({"op":"Refill","n":1 + rng.below(3)}));
+            }
             if w.src.is_some() && w.wrapper.is_none() {
                 if has_sink {
                     cand.push(json!({"op":"Feed","via":*rng.pick(&["feed_into","feed_into_mut","extend"])}));
+                    cand.push(json!({"op":"FeedRef","via":*rng.pick(&["feed_ref","extend_ref"])}));
                 }
                 cand.push(json!({"op":"Wrap"}));
                 cand.push(json!({"op":"Next","through":"direct"}));
